@@ -1099,7 +1099,7 @@ theorem transfer_sites (M M' : Kind → Cat → Mode) (fuel : Nat) :
   | .wrap k s, ag => by
     intro h i
     simp only [sitesOf] at ag
-    simp only [transfer, show M k s.cat = M' k s.cat from ag.head]
+    simp only [transfer, show M k s.wcat = M' k s.wcat from ag.head]
     exact c19_nodeWrap_congr _ _ (transfer_sites M M' fuel s ag.tail) h i
   | .wrapN k p opts, ag => by
     intro h i
@@ -1119,7 +1119,7 @@ theorem transferOpts_sites (M M' : Kind → Cat → Mode) (fuel : Nat) (k : Kind
   | s :: rest, ag => by
     intro n h i
     simp only [sitesOfOpts] at ag
-    simp only [transferOpts, show M k s.cat = M' k s.cat from ag.head]
+    simp only [transferOpts, show M k s.wcat = M' k s.wcat from ag.head]
     exact c19_optStep_congr (c19_nodeWrap_congr _ _ (transfer_sites M M' fuel s ag.tail.left))
       (transferOpts_sites M M' fuel k fb rest ag.tail.right) n h i
 theorem transferFields_sites (M M' : Kind → Cat → Mode) (fuel : Nat) :
